@@ -88,6 +88,18 @@ func c03build(c c03Case) (text string, toks []c03tok) {
 				if o.text == "-" && opensNeg {
 					b.WriteString(" ")
 				}
+			} else if c.Tight {
+				// a word operator written tight against the parenthesis that follows it: a AND(b OR c)
+				b.WriteString(" " + o.text)
+				opensGroup := false
+				for _, g := range c03groups(c) {
+					if g[0] == i && !(g[2] == 1 && neg[-1-i]) {
+						opensGroup = true
+					}
+				}
+				if !opensGroup {
+					b.WriteString(" ")
+				}
 			} else {
 				b.WriteString(" " + o.text + " ")
 			}
